@@ -1,7 +1,7 @@
 (* C03 — Trimming preserves the language and leaves no dead states; emptiness is exact.
    Nothing but statements closed by [exact]; the proofs are in TrimProofs.v. *)
 From Coq Require Import List NArith Bool.
-From V Require Import Sem Prod Incl TrimDefs TrimProofs.
+From V Require Import Sem Prod Incl TrimDefs TrimProofs UselessCount.
 
 (* RemoveUnreachableStates keeps the language (whatever the shortcut decides) *)
 Theorem C03_unreach_lang : forall A t, accepts (remove_unreachable A) t <-> accepts A t.
@@ -44,6 +44,19 @@ Proof. exact model_empty_passes. Qed.
 Theorem C03_old_shortcut_refuted : exists A, no_unreachable (remove_unreachable_old A) = false.
 Proof. exact TrimProofs.C03_old_shortcut_refuted. Qed.
 
+(* (A) the algorithm behind RemoveUselessStates / IsLangEmpty: one counter per rule (distinct children not yet known productive), a work
+   list of productive states, a parent marked when its rule's counter reaches zero. A run that ends has marked exactly the states
+   that generate a tree, for every fuel *)
+Theorem C03_counter_algorithm_exact : forall A fuel M, productive_count A fuel = Some M -> forall q, In q M <-> exists t, reach A t q.
+Proof. exact productive_count_exact. Qed.
+Theorem C03_counter_algorithm_is_productive : forall A fuel M, productive_count A fuel = Some M -> forall q, In q M <-> In q (productive A).
+Proof. exact productive_count_is_productive. Qed.
+(* decrementing once per occurrence of the popped state, or waiting for a prefix of the child positions only, is refuted *)
+Theorem C03_counter_variants_refuted :
+  productive_count vA 10 = Some (cons 1%N nil) /\ productive vA = cons 1%N nil /\
+  urun_occ 10 (uinit vA) = Some (cons 0 (cons 1 nil))%N /\ urun 10 (uinit_k 2 vA) = Some (cons 0 (cons 1 nil))%N.
+Proof. exact counter_variants_refuted. Qed.
+
 Print Assumptions C03_unreach_lang.
 Print Assumptions C03_unreach_post.
 Print Assumptions C03_useless_lang.
@@ -57,3 +70,6 @@ Print Assumptions C03_model_unreach_passes.
 Print Assumptions C03_model_useless_passes.
 Print Assumptions C03_model_empty_passes.
 Print Assumptions C03_old_shortcut_refuted.
+Print Assumptions C03_counter_algorithm_exact.
+Print Assumptions C03_counter_algorithm_is_productive.
+Print Assumptions C03_counter_variants_refuted.
